@@ -1,6 +1,6 @@
 /-
   Lemmas for C12, part 3: the forest in the middle of `clone_node` — the old roots `R`, the work
-  tree `plug fs (node c vc K)` (focus = `current`), and the node just created `node n v []` —
+  tree `fcPlug fs (node c vc K)` (focus = `current`), and the node just created `node n v []` —
   and what the queries and indextree primitives used by `any_append(current, new)` give on it.
 -/
 import XotModel.Lemmas.FcloneZipper
@@ -24,7 +24,7 @@ theorem Forest.withRoots_self (g : Forest) : g.withRoots g.roots = g := rfl
 /-- The state just after `new_node(value.clone())` inside the edge replay. -/
 structure Work (g : Forest) (R : List HTree) (fs : List CFrame) (c : Nat) (vc : Value)
     (K : List HTree) (n : Nat) (v : Value) : Prop where
-  roots : g.roots = R ++ [plug fs (.node c vc K), .node n v []]
+  roots : g.roots = R ++ [fcPlug fs (.node c vc K), .node n v []]
   nodup : (handlesList R ++ (frameHandles fs ++ c :: handlesList K)).Nodup
   fresh : n ∉ handlesList R ++ (frameHandles fs ++ c :: handlesList K)
 
@@ -54,7 +54,7 @@ theorem nF (w : Work g R fs c vc K n v) : n ∉ frameHandles fs := fun h => w.fr
 theorem nK (w : Work g R fs c vc K n v) : n ∉ handlesList K := fun h => w.fresh (by simp [h])
 theorem nc (w : Work g R fs c vc K n v) : n ≠ c := fun h => w.fresh (by simp [h])
 
-theorem nW (w : Work g R fs c vc K n v) : n ∉ handles (plug fs (.node c vc K)) := by
+theorem nW (w : Work g R fs c vc K n v) : n ∉ handles (fcPlug fs (.node c vc K)) := by
   rw [handles_plug]
   simp only [handles, List.mem_append, List.mem_cons, not_or]
   exact ⟨w.nF, w.nc, w.nK⟩
@@ -86,12 +86,12 @@ theorem get?_c (w : Work g R fs c vc K n v) : g.get? c = some (.node c vc K) := 
   unfold Forest.get?
   rw [w.roots, findList?_append_of_not_mem c _ _ w.cR]
   simp only [findList?]
-  rw [find?_plug c fs _ w.cF, find?_self]
+  rw [find?_plug c fs _ w.cF, fc_find?_self]
 
 theorem get?_n (w : Work g R fs c vc K n v) : g.get? n = some (.node n v []) := by
   unfold Forest.get?
   rw [w.roots, findList?_append_of_not_mem n _ _ w.nR, findList?_cons_of_not_mem n _ _ w.nW,
-    findList?_cons_self]
+    fc_findList?_cons_self]
 
 theorem value?_c (w : Work g R fs c vc K n v) : g.value? c = some vc := by
   simp [Forest.value?, w.get?_c, HTree.value]
@@ -107,7 +107,7 @@ theorem isDocument_c (w : Work g R fs c vc K n v) : g.isDocument c = vc.isDocume
 
 theorem ctx?_n (w : Work g R fs c vc K n v) : g.ctx? n = none := by
   unfold Forest.ctx?
-  rw [w.roots, List.findSome?_append, findSome?_ctxBelow_none n R w.nR]
+  rw [w.roots, List.findSome?_append, fc_findSome?_ctxBelow_none n R w.nR]
   simp [List.findSome?_cons, ctxBelow_none_of_not_mem n _ w.nW, ctxBelow, ctxKids]
 
 theorem prevSibling_n (w : Work g R fs c vc K n v) : g.prevSibling n = none := by
@@ -152,12 +152,12 @@ theorem lastChild_snoc {K' : List HTree} {x : HTree} (w : Work g R fs c vc (K' +
     g.lastChild c = if x.value.isNormal then some x.handle else none := by
   simp [Forest.lastChild, w.get?_c, HTree.kids]
 
-theorem rootW_ne_n (w : Work g R fs c vc K n v) : (plug fs (.node c vc K)).handle ≠ n := by
+theorem rootW_ne_n (w : Work g R fs c vc K n v) : (fcPlug fs (.node c vc K)).handle ≠ n := by
   intro e
-  exact w.nW (e ▸ handle_mem_handles _)
+  exact w.nW (e ▸ fc_handle_mem_handles _)
 
 theorem cut_n (w : Work g R fs c vc K n v) :
-    g.cut n = (g.withRoots (R ++ [plug fs (.node c vc K)]), some (.node n v [])) := by
+    g.cut n = (g.withRoots (R ++ [fcPlug fs (.node c vc K)]), some (.node n v [])) := by
   unfold Forest.cut
   rw [w.get?_n]
   simp only [w.isRoot_n, if_true]
@@ -172,8 +172,8 @@ end Work
 
 theorem placeLast_work (g : Forest) (R : List HTree) (fs : List CFrame) (c : Nat) (vc : Value)
     (K : List HTree) (t : HTree) (cR : c ∉ handlesList R) (cF : c ∉ frameHandles fs) :
-    (g.withRoots (R ++ [plug fs (.node c vc K)])).placeLast c t =
-      g.withRoots (R ++ [plug fs (.node c vc (K ++ [t]))]) := by
+    (g.withRoots (R ++ [fcPlug fs (.node c vc K)])).placeLast c t =
+      g.withRoots (R ++ [fcPlug fs (.node c vc (K ++ [t]))]) := by
   unfold Forest.placeLast
   simp only [Forest.withRoots_roots, List.map_append, List.map_cons, List.map_nil]
   rw [map_mapAt_of_not_mem c _ R cR, mapAt_plug c _ fs _ cF, mapAt_self]
@@ -181,8 +181,8 @@ theorem placeLast_work (g : Forest) (R : List HTree) (fs : List CFrame) (c : Nat
 
 theorem placeFirst_work (g : Forest) (R : List HTree) (fs : List CFrame) (c : Nat) (vc : Value)
     (K : List HTree) (t : HTree) (cR : c ∉ handlesList R) (cF : c ∉ frameHandles fs) :
-    (g.withRoots (R ++ [plug fs (.node c vc K)])).placeFirst c t =
-      g.withRoots (R ++ [plug fs (.node c vc (t :: K))]) := by
+    (g.withRoots (R ++ [fcPlug fs (.node c vc K)])).placeFirst c t =
+      g.withRoots (R ++ [fcPlug fs (.node c vc (t :: K))]) := by
   unfold Forest.placeFirst
   simp only [Forest.withRoots_roots, List.map_append, List.map_cons, List.map_nil]
   rw [map_mapAt_of_not_mem c _ R cR, mapAt_plug c _ fs _ cF, mapAt_self]
@@ -192,8 +192,8 @@ theorem placeFirst_work (g : Forest) (R : List HTree) (fs : List CFrame) (c : Na
 theorem placeAfter_work (g : Forest) (R : List HTree) (fs : List CFrame) (c : Nat) (vc : Value)
     (K' : List HTree) (x t : HTree) (rR : x.handle ∉ handlesList R) (rF : x.handle ∉ frameHandles fs)
     (rc : x.handle ≠ c) (rK : x.handle ∉ handlesList K') :
-    (g.withRoots (R ++ [plug fs (.node c vc (K' ++ [x]))])).placeAfter x.handle t =
-      g.withRoots (R ++ [plug fs (.node c vc (K' ++ [x, t]))]) := by
+    (g.withRoots (R ++ [fcPlug fs (.node c vc (K' ++ [x]))])).placeAfter x.handle t =
+      g.withRoots (R ++ [fcPlug fs (.node c vc (K' ++ [x, t]))]) := by
   unfold Forest.placeAfter
   simp only [Forest.withRoots_roots, List.map_append, List.map_cons, List.map_nil]
   rw [map_replaceBelow_of_not_mem _ _ R rR, replaceBelow_plug _ _ fs c vc _ rF rc,
